@@ -83,7 +83,7 @@ extern "C" int harness_main() {
                                    { {2, 1, 0}, {1, 2, 4 | 8}, {2, 2, 2}, {1, 2, 4 | 8} },
                                    { {3, 1, 15}, {0, 2, 1}, {1, 1, 1}, {2, 3, 1 | 2} },
                                    // the same output recorded again with the same dependencies and an OLDER mtime (the output was restored from a cache), then once more unchanged
-                                   { {1, 5, 1 | 2}, {1, 3, 1 | 2}, {2, 2, 4}, {1, 3, 1 | 2} } };
+                                   { {1, 5, 1 | 2}, {1, 3, 1 | 2}, {2, 0, 4}, {1, 3, 1 | 2} } };      // (and a record with mtime 0: a command that succeeded without creating its output)
 #ifndef SEQ_BASE
 #define SEQ_BASE 0
 #endif
